@@ -6,6 +6,6 @@ CONSTANTS
   Fixes = {"none", "center", "pa", "eps"}
   Modes = {"bilinear", "nearest", "linear_growth", "maxrit", "mean", "median", "linear_geometry"}
   Frames = {"square", "wide", "tall", "nearleft", "nearbottom", "large", "largeleft", "largebottom"}
-  Starts = {"near", "perp"}
+  Starts = {"near", "perp", "round"}
   Emit = TRUE
 CHECK_DEADLOCK FALSE
